@@ -133,7 +133,7 @@ ApplyResults(S, a, rs) ==           \* worker.rs update_await_results / notify_r
                  THEN Wake(IF deliver
                            THEN [S EXCEPT !.proc[a].awaiting = APut(@, t, Some(r[1].v))]
                            ELSE S, a)
-                 ELSE IF deliver
+                 ELSE IF deliver /\ P.result = None                 \* (a finished process keeps its result: 34b580c)
                  THEN [S EXCEPT !.proc[a].result = Some(r[1])]      \* frames cleared: the process is over
                  ELSE S
        IN ApplyResults(S1, a, Tail(rs))
@@ -172,6 +172,7 @@ HandleCmd(S, c) ==
              S2 == IF ~P.live THEN S1
                    ELSE IF c.ok
                    THEN [S1 EXCEPT !.proc[c.p].regs[op.dst] = c.v, !.proc[c.p].pc = @ + 1]
+                   ELSE IF P.result # None THEN S1        \* (a finished process keeps its result: 34b580c)
                    ELSE [S1 EXCEPT !.proc[c.p].result = Some(ErrV("InvalidArgument:Effect operation failed: " \o c.e))]
          IN IF c.p \in S.effecting THEN [S2 EXCEPT !.runq = Append(@, c.p)] ELSE S2
     [] c.t = "QueryAndAwait" -> QueryTargets(S, c.a, c.ts, <<>>)
@@ -376,6 +377,7 @@ NotifyLocal(S, p, order) ==
            S1 == IF r.ok /\ HasBin(r.v) THEN S
                  ELSE IF r.ok
                  THEN Wake([S EXCEPT !.proc[a].awaiting = APut(@, p, Some(r.v))], a)
+                 ELSE IF S.proc[a].result # None THEN S         \* (a finished process keeps its result: 34b580c)
                  ELSE [S EXCEPT !.proc[a].result = Some(r)]
        IN NotifyLocal(S1, p, Tail(order))
 
